@@ -101,14 +101,15 @@ Proof. intros f g s H. rewrite ren_s_comp. apply ren_s_fix. exact H. Qed.
 Theorem expand_spec_alpha :
   forall (f : string -> string) sig_of comp_name counter_name scope body b,
     fixes_names f body ->
+    counters_separate f counter_name ->
     expand_spec sig_of comp_name counter_name body = Some b ->
     inj_on f (scope ++ stmt_names b) ->
     expand_spec sig_of (fun id m => option_map f (comp_name id m)) (fun m => option_map f (counter_name m)) body
       = Some (ren_s f b) /\
     exists g, (forall x, In x (scope ++ stmt_names b) -> g (f x) = x) /\ ren_s g (ren_s f b) = b.
 Proof.
-  intros f sig_of cn kn scope body b Hfix Hb Hinj. split.
-  - rewrite (expand_spec_naming_independent f sig_of cn kn body Hfix), Hb. reflexivity.
+  intros f sig_of cn kn scope body b Hfix Hsep Hb Hinj. split.
+  - rewrite (expand_spec_naming_independent f sig_of cn kn body Hfix Hsep), Hb. reflexivity.
   - exists (inv_on f (scope ++ stmt_names b)).
     assert (Hg : forall x, In x (scope ++ stmt_names b) -> inv_on f (scope ++ stmt_names b) (f x) = x)
       by (apply inv_on_left; exact Hinj).
@@ -120,16 +121,17 @@ Theorem desugar_is_expand_up_to_alpha :
     Forall wf_node (stmt_exprs (Block m l)) ->
     Forall short_node (sub_stmts (Block m l)) ->
     fixes_names f (Block m l) ->
+    counters_separate f (name_opt lib "anon_var") ->
     desugar_template (env_of ts) lib (Block m l) = DOk b ->
     inj_on f (scope ++ stmt_names b) ->
     expand_spec (sig_table ts) (fun id mm => option_map f (name_opt lib id mm))
                 (fun mm => option_map f (name_opt lib "anon_var" mm)) (Block m l) = Some (ren_s f b) /\
     exists g, (forall x, In x (scope ++ stmt_names b) -> g (f x) = x) /\ ren_s g (ren_s f b) = b.
 Proof.
-  intros f lib ts m l scope b Hwf Hshort Hfix Hd Hinj.
+  intros f lib ts m l scope b Hwf Hshort Hfix Hsep Hd Hinj.
   pose proof (desugar_is_expand lib ts m l Hwf Hshort) as E. rewrite Hd in E. cbn [to_opt] in E.
   exact (expand_spec_alpha f (sig_table ts) (name_opt lib) (name_opt lib "anon_var") scope (Block m l) b
-                           Hfix (eq_sym E) Hinj).
+                           Hfix Hsep (eq_sym E) Hinj).
 Qed.
 
 (* the hypothesis excludes what [fixes_names] alone lets through: an [f] that
